@@ -49,6 +49,9 @@ func init() {
 			}
 		}
 		o.p("def runDefers : List String := %s\n", leanList(defers))
+		// job.Run: the order ticket -> (refused: leave) -> error-handler instrumentation/reset -> pipeline
+		o.p("def skeleton_Run : List String := %s\n", leanList(skeleton(run.Body,
+			suffixIn("borrowTicket", "returnTicket", "instrumentErrorHandling", "handleJobError", "pipeline.sync", "isFullSync"), nil)))
 		// raffle accessors
 		var acc []string
 		g := mustFunc("internal/jobs/raffle.go", "raffle", "getRunningJobs")
